@@ -567,7 +567,17 @@ func (in *Interp) deepEq(a, b Value) *Term {
 			return ts.False()
 		}
 		if len(x.idx) != len(x.Entries) || len(y.idx) != len(y.Entries) {
-			panic(unsupported("deepEq on maps with symbolic keys"))
+			// symbolic keys: keys inside one map are pairwise distinct on this path and the sizes are equal, so the maps
+			// are equal iff every entry of x has a partner in y with equal key and equal value
+			r := ts.True()
+			for _, ex := range x.Entries {
+				any := ts.False()
+				for _, ey := range y.Entries {
+					any = ts.Or(any, ts.And(in.deepEq(ex.K, ey.K), in.deepEq(ex.V, ey.V)))
+				}
+				r = ts.And(r, any)
+			}
+			return r
 		}
 		r := ts.True()
 		for k, i := range x.idx {
